@@ -128,6 +128,17 @@ Theorem C14_ruleset_meets_spec : forall proxy def sd,
 Proof. exact load_ruleset_spec. Qed.
 Print Assumptions C14_ruleset_meets_spec.
 
+(** histories of CreateRule calls on ONE factory instance (2, 5, any number of rules, in one rule set or over
+    reloads): whatever was created before and after, the result for a rule is the specification's — a function of
+    that rule's definition, the default rule and the mode alone; nothing of an earlier rule (say, the pipelines
+    created for an equal `execute` list) can show in a later one *)
+Theorem C14_history_meets_spec : forall proxy def pre r post,
+  scoped_rule r = true ->
+  nth_error (create_history proxy def (pre ++ r :: post)) (length pre) =
+  Some (if r_matchers_ok r then match spec_rule proxy def r with Some e => Ok e | None => Rejected end else Rejected).
+Proof. exact history_meets_spec. Qed.
+Print Assumptions C14_history_meets_spec.
+
 (** the trace of mechanisms executed for a request (rule_impl.go Execute), for
     any CEL oracle [holds]: nothing fails — the first authenticator, then every
     authorizer/contextualizer whose condition holds, then every finalizer whose
